@@ -36,7 +36,7 @@ ASSUME PrintT(<<"OQS", ToJson(OQ)>>)
 \* from the recorded state when the behaviour is emitted
 Rec(a, u, k, v, v2) ==
   [a |-> a, u |-> u, k |-> k, v |-> v, v2 |-> v2,
-   out |-> IF a = "upd" THEN UpdOut(u, k) ELSE "ok",
+   out |-> IF a = "upd" THEN UpdOut(u, k) ELSE IF a = "commitfail" THEN "commitfail" ELSE "ok",
    S |-> Cur']
 Expand(r) ==
   [a |-> r.a, u |-> r.u, k |-> r.k, v |-> r.v, v2 |-> r.v2, out |-> r.out,
@@ -48,7 +48,7 @@ Expand(r) ==
 Log(a, u, k, v, v2) ==
   /\ hist' = Append(hist, Rec(a, u, k, v, v2))
   /\ IF u = DB /\ a # "populate" THEN nd < MaxDirect /\ nd' = nd + 1 ELSE nd' = nd
-  /\ IF u # DB /\ a \in {"set", "upd", "del", "updeq", "deleq"}
+  /\ IF u # DB /\ a \in {"set", "upd", "del", "updeq", "deleq", "delset"}
      THEN nw[u] < MaxTxOps /\ nw' = [nw EXCEPT ![u] = @ + 1]
      ELSE IF a = "open" THEN nw' = [nw EXCEPT ![u] = 0] ELSE nw' = nw
   /\ UNCHANGED <<nested, emitted>>
@@ -89,11 +89,16 @@ Step ==
              \* in a Nest behaviour the first commit made while another tx is open is a nested one
              /\ (Nest = "tx" /\ ~nested) => OpenTx = {t}
           \/ Abort(t) /\ Log("abort", t, "-", "-", "-")
+          \/ CommitFails(t) /\ Log("commitfail", t, "-", "-", "-")
      \/ \E t1 \in Tx, t2 \in Tx : NestedCommit(t1, t2)
      \/ \E t1 \in Tx, k \in Key, v \in Val : NestedSet(t1, k, v)
      \/ \E u \in Tx \cup {DB}, k \in Key, v \in Val :
           \/ Set(u, k, v) /\ Log("set", u, k, v, "-")
           \/ Upd(u, k, v) /\ Log("upd", u, k, v, "-")
+          \* two calls in one step: delete row k, then create it again with v (same view).
+          \* The post-state is that of Set; what differs is the path through the staged delta
+          \* (tombstone, then value) / the committed maps.
+          \/ ViewOf(u)[k] # Absent /\ Set(u, k, v) /\ Log("delset", u, k, v, "-")
      \/ \E u \in Tx \cup {DB}, k \in Key : DelK(u, k) /\ Log("del", u, k, "-", "-")
      \/ \E u \in Tx \cup {DB}, v \in Val, v2 \in Val : UpdEq(u, v, v2) /\ Log("updeq", u, "-", v, v2)
      \/ \E u \in Tx \cup {DB}, v \in Val : DelEq(u, v) /\ Log("deleq", u, "-", v, "-")
